@@ -25,11 +25,32 @@ Definition run_interp (fx : bool) (v : value) : value :=
   let '(d, k) := interp_gen fx m n0 n1 off disp mask in
   VL [ VL (map (fun row => VL (map of_oq row)) (rows_of_fn n0 n1 d)); of_zss (rows_of_fn n0 n1 k) ].
 
-(* fid 1: the tree under test; fid 3: the code as found (regression only) *)
+(* (nr nc disp mask dmin dmax offset), as in X07 *)
+Definition dec_ds (v : value) : dataset :=
+  mkDS (as_z (vnth 0 v)) (as_z (vnth 1 v))
+       (fn_of_rows None (as_oqss (vnth 2 v)))
+       (fn_of_rows 0 (as_zss (vnth 3 v)))
+       []
+       (as_z (vnth 4 v)) (as_z (vnth 5 v)) (as_z (vnth 6 v)).
+Definition enc_out (d : dataset) : list value :=
+  [ VL (map (fun row => VL (map of_oq row)) (rows_of_fn (ds_nr d) (ds_nc d) (ds_disp d)));
+    of_zss (rows_of_fn (ds_nr d) (ds_nc d) (ds_mask d)) ].
+(* argument: (left right thr method); result: (dispL' maskL' dispR' maskR') after
+   PandoraMachine.validation_run with interpolated_disparity *)
+Definition run_validation (v : value) : value :=
+  let L := dec_ds (vnth 0 v) in
+  let R := dec_ds (vnth 1 v) in
+  let thr := as_q (vnth 2 v) in
+  let m := if as_z (vnth 3 v) =? 0 then McCnn else Sgm in
+  let LR := validation_interp_run thr m L R in
+  VL (enc_out (fst LR) ++ enc_out (snd LR)).
+
+(* fid 1: the tree under test; fid 3: the code as found (regression only); fid 5: validation_run *)
 Definition dispatch (fid : Z) (v : value) : value :=
   match fid with
   | 1 => run_interp true v
   | 3 => run_interp false v
+  | 5 => run_validation v
   | _ => VL [VZ (-1)]
   end.
 
